@@ -1,6 +1,24 @@
-import Infretis.Model.Proto
-open Infretis.Proto
+import Infretis.Model.RunnerProto
+import Infretis.Model.RepexProto
+/-! C17 driver: `runner-…` ops go to the stateless runner handler (trace validation),
+    everything else to the stateful replica-exchange protocol (scheduler arithmetic). -/
+open Infretis.Repex
 
-def handle (_toks : List String) : String := "bad-op"
+partial def c17Loop (h out : IO.FS.Stream) (d : DState) : IO Unit := do
+  let line ← h.getLine
+  if line.isEmpty then
+    out.flush
+    return ()
+  let l := (line.dropEndWhile (fun c => c = '\n' || c = '\r')).toString
+  let toks := (l.splitOn " ").filter (fun t => t ≠ "")
+  match Infretis.Runner.handle toks with
+  | some r =>
+    out.putStrLn r
+    c17Loop h out d
+  | none =>
+    let (d', ans) := handle d toks
+    out.putStrLn ans
+    c17Loop h out d'
 
-def main : IO Unit := mainWith handle
+def main : IO Unit := do
+  c17Loop (← IO.getStdin) (← IO.getStdout) { s := emptySt }
